@@ -736,6 +736,74 @@ theorem count_le_one_of_pairwise (log : List Entry) (e : Entry) (c : Nat) (hc : 
     · rw [List.count_cons_of_ne hx]
       exact ih h.2
 
+/-! ### the state file -/
+
+theorem load_save (p : Persist) : (loadState (saveState p)).p = p := by
+  cases p with
+  | mk cur lcf next lcb =>
+    cases next with
+    | zero => simp [loadState, saveState]
+    | succ n => simp [loadState, saveState]
+
+/-- the file on disk is a faithful image of the in-memory progress -/
+def Sync (P : Proc) : Prop := loadFile P.file = { P.mem with cache := none }
+
+theorem sync_init : Sync procInit := by simp [Sync, procInit, loadFile, init]
+
+theorem sync_saved (s : St) : Sync { mem := s, file := some (saveState s.p) } := by
+  have h := load_save s.p
+  show loadState (saveState s.p) = { s with cache := none }
+  cases hs : loadState (saveState s.p) with
+  | mk p cache =>
+    have hc : cache = none := by
+      have : (loadState (saveState s.p)).cache = none := rfl
+      rw [hs] at this; exact this
+    rw [hs] at h
+    simp only at h
+    subst hc; subst h; rfl
+
+theorem sync_loaded (f : Option FileState) : Sync { mem := loadFile f, file := f } := by
+  show loadFile f = { loadFile f with cache := none }
+  cases f with
+  | none => rfl
+  | some f => rfl
+
+theorem stepProc_sync (np : Nat) (P : Proc) (ev : PEvent) : Sync (stepProc np P ev).1 := by
+  cases ev with
+  | slice ls o => exact sync_saved _
+  | killed ls o k => exact sync_loaded _
+  | restart => exact sync_loaded _
+  | stop => exact sync_loaded _
+
+theorem runProc_sync (np : Nat) (evs : List PEvent) : ∀ P, Sync P → Sync (runProc np P evs).1 := by
+  induction evs with
+  | nil => intro P h; exact h
+  | cons ev evs ih => intro P _; exact ih _ (stepProc_sync np P ev)
+
+/-- one event: the process machine does what the slice machine does -/
+theorem stepProc_eq_step (np : Nat) (P : Proc) (ev : PEvent) (h : Sync P) :
+    (stepProc np P ev).1.mem = (step np P.mem ev.toEvent).1 ∧ (stepProc np P ev).2 = (step np P.mem ev.toEvent).2 := by
+  cases ev with
+  | slice ls o => exact ⟨rfl, rfl⟩
+  | killed ls o k => exact ⟨h, rfl⟩
+  | restart => exact ⟨h, rfl⟩
+  | stop =>
+    refine ⟨?_, rfl⟩
+    exact sync_saved P.mem
+
+theorem runProc_eq_run (np : Nat) (evs : List PEvent) : ∀ P, Sync P →
+    (runProc np P evs).1.mem = (run np P.mem (evs.map PEvent.toEvent)).1 ∧
+    (runProc np P evs).2 = (run np P.mem (evs.map PEvent.toEvent)).2 := by
+  induction evs with
+  | nil => intro P _; exact ⟨rfl, rfl⟩
+  | cons ev evs ih =>
+    intro P h
+    obtain ⟨h1, h2⟩ := stepProc_eq_step np P ev h
+    obtain ⟨i1, i2⟩ := ih (stepProc np P ev).1 (stepProc_sync np P ev)
+    simp only [runProc, run, List.map_cons]
+    rw [h1] at i1 i2
+    exact ⟨i1, by rw [h2, i2]⟩
+
 /-! ### a concrete instance used by the `example`s of Props/C27 -/
 
 def exLs : Nat → List Nat := fun i => if i = 1 then [5, 3] else if i = 2 then [9] else []
